@@ -384,6 +384,16 @@ def has_casefold_special(strs):
     return False
 
 
+def pinned_double_repr(v):
+    """the double-to-string form pinned by the repository's own tests (tests/test_xpath_tokens.py): Python's
+    repr with the mantissa trimmed and 'E' + Python's exponent digits.  A listed exponent-form finding is only
+    recognised when the engine produced exactly this string; any other string is a different defect."""
+    m, _, e = repr(float(v)).partition('e')
+    if '.' in m:
+        m = m.rstrip('0').rstrip('.')
+    return m + ('E' + e.replace('+', '') if e else '')
+
+
 def classify_fo(fn, args, coll, want, got, ver='3.1'):
     """mechanism class of a disagreement (diagnosis from the operands, never from the values themselves)"""
     if got[0] == 'exc':
@@ -430,7 +440,9 @@ def classify_fo(fn, args, coll, want, got, ver='3.1'):
             if a[0] == 'd':
                 v = parse_d(a[1])
                 # outside [1e-4, 1e6) either the XPath or the host-language repr uses an exponent
-                if v == v and v not in (math.inf, -math.inf) and v != 0 and not (0.0001 <= abs(v) < 1000000):
+                if v == v and v not in (math.inf, -math.inf) and v != 0 and not (0.0001 <= abs(v) < 1000000) \
+                        and conv == ('ok', S(pinned_double_repr(v))):
+                    # exactly the representation the repository's tests pin, nothing else
                     return 'double-exponent-form'
             return 'string-of-' + {'d': 'double', 'dec': 'decimal', 'i': 'integer', 'b': 'boolean'}[a[0]]
         return 'value'
@@ -583,7 +595,8 @@ def classify_xp1(fn, args, eng):
                 return None, 'C09/xp1-string-of-number/infinity'
             if v == 0 and math.copysign(1.0, v) < 0:
                 return None, 'C09/xp1-string-of-number/negative-zero'
-            if v == v and v != 0 and (abs(v) < 0.0001 or abs(v) >= 1e16):
+            if v == v and v != 0 and (abs(v) < 0.0001 or abs(v) >= 1e16) and \
+                    conv == ('ok', pinned_double_repr(v)):
                 return None, 'C09/xp1-string-of-number/exponent-form'
             return None, 'C09/xp1-string-of-number/value'
         if a[0] == 'b':
